@@ -60,14 +60,21 @@ package util
 //@ requires chars != nil
 //@ ensures result == clen(chars)
 
+// leadws(c, i): first index >= i that does not hold white space (clen if none)
+//@ spec func leadws(c *Chars, i int) int = (i < clen(c) && isSpace(at(c, i))) ? leadws(c, i + 1) : i decreases clen(c) - i
+// trailws(c, i): number of white-space characters at the end of c[0:i)
+//@ spec func trailws(c *Chars, i int) int = (i > 0 && isSpace(at(c, i - 1))) ? trailws(c, i - 1) + 1 : 0 decreases i
+
 //@ func Chars.LeadingWhitespaces
 //@ requires chars != nil
 //@ ensures 0 <= result && result <= clen(chars)
 //@ ensures forall(k, 0, result, isSpace(at(chars, k)))
 //@ ensures result < clen(chars) ==> !isSpace(at(chars, result))
+//@ ensures result == leadws(chars, 0)
 //@ loop 1
 //@   invariant 0 <= i && i <= clen(chars) && whitespaces == i
 //@   invariant forall(k, 0, i, isSpace(at(chars, k)))
+//@   invariant leadws(chars, 0) == leadws(chars, i)
 //@   decreases clen(chars) - i
 
 //@ func Chars.TrailingWhitespaces
@@ -75,9 +82,11 @@ package util
 //@ ensures 0 <= result && result <= clen(chars)
 //@ ensures forall(k, clen(chars) - result, clen(chars), isSpace(at(chars, k)))
 //@ ensures result < clen(chars) ==> !isSpace(at(chars, clen(chars) - result - 1))
+//@ ensures result == trailws(chars, clen(chars))
 //@ loop 1
 //@   invariant -1 <= i && i < clen(chars) && whitespaces == clen(chars) - 1 - i
 //@   invariant forall(k, i + 1, clen(chars), isSpace(at(chars, k)))
+//@   invariant trailws(chars, clen(chars)) == trailws(chars, i + 1) + whitespaces
 //@   decreases i + 1
 
 //@ func Chars.CopyRunes
